@@ -1075,7 +1075,7 @@ Lemma closed_only_by : forall s o p, Inv s ->
   | OHClose h => hnd s h = Some (p, false) /\ (p_refs (pc s p) - 1 <= 0)%Z
   | OExpire u f i => mp s u f i = Some p /\ p_timer (pc s p) = true
   | OMuxClose => mclosed s = false
-  | OWatcher q => q <> p /\ p_closed (pc s q) = true /\ p_watcher (pc s q) = true /\
+  | OWatcher q => cf_byid cf = false /\ q <> p /\ p_closed (pc s q) = true /\ p_watcher (pc s q) = true /\
                   p_ufrag (pc s q) = p_ufrag (pc s p) /\ p_ip (pc s q) = p_ip (pc s p)
   | _ => False
   end.
@@ -1107,7 +1107,7 @@ Proof.
     apply andb_true_iff in E. destruct E as [E E3]. apply andb_true_iff in E. destruct E as [E1 E2].
     unfold upd. destruct (Nat.eqb p p0) eqn:Ep; simpl.
     + apply Nat.eqb_eq in Ep; subst p0. congruence.
-    + unfold close_pc_of.
+    + unfold close_pc_of. destruct (cf_byid cf) eqn:Hb; [congruence|].
       destruct (oeqb (mp s (p_ufrag (pc s p0)) false (p_ip (pc s p0))) p || oeqb (mp s (p_ufrag (pc s p0)) true (p_ip (pc s p0))) p)%bool eqn:Es;
         [|congruence].
       intros _. apply Nat.eqb_neq in Ep. repeat split; auto.
@@ -1137,7 +1137,7 @@ Proof.
 Qed.
 
 Lemma claim_disarms : forall s h u is6 ip p,
-  mclosed s = false -> mp s u is6 ip = Some p ->
+  mclosed s = false -> lookup cf s u is6 ip = Some p ->
   let s' := next s (OGet h u is6 ip) in
   snd (step cf s (OGet h u is6 ip)) = XOk /\ hnd s' h = Some (p, false) /\ p_timer (pc s' p) = false /\
   p_closed (pc s' p) = p_closed (pc s p) /\ p_refs (pc s' p) = (p_refs (pc s p) + 1)%Z.
@@ -1341,7 +1341,7 @@ Proof.
   destruct (c_phase (conn s cid)) eqn:Hp; simpl; try congruence.
   destruct (classify m) eqn:Hc; simpl; try congruence.
   destruct (negb (c_addr_ok (conn s cid))); simpl; try congruence.
-  destruct (mp s ufrag (c_is6 (conn s cid)) (c_lip (conn s cid))) eqn:Em; simpl; try congruence.
+  destruct (lookup cf s ufrag (c_is6 (conn s cid)) (c_lip (conn s cid))) eqn:Em; simpl; try congruence.
   destruct (cf_addr_ok cf); simpl; try congruence.
   intros _.
   match goal with |- context [?a + sumf ?F (seq 1 (npc s))] =>
@@ -1420,7 +1420,7 @@ Proof.
       * right; right. exists p. split; [lia|].
         unfold next, step. rewrite Hlt, Hwa, Hc; simpl. unfold upd; rewrite Nat.eqb_refl.
         unfold w_pc; simpl. rewrite Hc, Hwa.
-        unfold close_pc_of. destruct (_ || _)%bool; simpl; rewrite ?Hc; lia.
+        unfold close_pc_of. destruct (cf_byid cf); [simpl; rewrite ?Hc; lia|]. destruct (_ || _)%bool; simpl; rewrite ?Hc; lia.
     + destruct (i_open _ I p Hc) as (A & B & C).
       pose proof (i_post _ I Hm p Hc) as Ht. rewrite Hal in Ht.
       exists (OExpire (p_ufrag (pc s p)) (p_is6 (pc s p)) (p_ip (pc s p))). split; [exact Logic.I|].
@@ -1502,17 +1502,20 @@ Proof. intros s A B C. unfold next, step. rewrite A, B, C; reflexivity. Qed.
 Definition no_pending_watcher (s : state) : Prop :=
   forall q, p_closed (pc s q) = true -> p_watcher (pc s q) = false.
 
-Lemma get_returns_open : forall s h u is6 ip, Inv s -> no_pending_watcher s ->
+Lemma get_returns_open : forall s h u is6 ip, Inv s ->
+  (cf_byid cf = true \/ no_pending_watcher s) ->
   mclosed s = false -> cf_addr_ok cf = true ->
   let s' := next s (OGet h u is6 ip) in
   exists p, hnd s' h = Some (p, false) /\ p_closed (pc s' p) = false /\ mp s' u is6 ip = Some p /\
             p_ufrag (pc s' p) = u /\ p_is6 (pc s' p) = is6 /\ p_ip (pc s' p) = ip /\ p_timer (pc s' p) = false.
 Proof.
   intros s h u is6 ip I Q Hm Ha. simpl. unfold next, step. rewrite Hm.
-  destruct (mp s u is6 ip) as [p|] eqn:Em; simpl.
-  - exists p. unfold upd. rewrite !Nat.eqb_refl. simpl.
+  destruct (lookup cf s u is6 ip) as [p|] eqn:El; simpl.
+  - destruct (lookup_some _ _ _ _ _ El) as (Em & Hopen).
+    exists p. unfold upd. rewrite !Nat.eqb_refl. simpl.
     destruct (i_mp _ I _ _ _ _ Em) as (A & B & C & D).
     repeat split; auto.
+    destruct Q as [Q|Q]; auto.
     destruct (p_closed (pc s p)) eqn:Hc; auto.
     pose proof (i_cm _ I _ _ _ _ Em Hc) as W. rewrite (Q p Hc) in W. discriminate.
   - rewrite Ha; simpl. exists (npc s). unfold upd. rewrite !Nat.eqb_refl. simpl.
@@ -1520,7 +1523,8 @@ Proof.
 Qed.
 
 Lemma no_spurious_close : forall s o p, Inv s ->
-  (forall q, q <> p -> p_closed (pc s q) = true -> p_watcher (pc s q) = true ->
+  (cf_byid cf = true \/
+   forall q, q <> p -> p_closed (pc s q) = true -> p_watcher (pc s q) = true ->
              ~ (p_ufrag (pc s q) = p_ufrag (pc s p) /\ p_ip (pc s q) = p_ip (pc s p))) ->
   p_closed (pc s p) = false -> p_closed (pc (next s o) p) = true ->
   match o with
@@ -1533,7 +1537,7 @@ Lemma no_spurious_close : forall s o p, Inv s ->
 Proof.
   intros s o p I Q Ho Hc. pose proof (closed_only_by s o p I Ho Hc) as H.
   destruct o; auto.
-  destruct H as (A & B & C & D & E). eapply Q; eauto.
+  destruct H as (Hb & A & B & C & D & E). destruct Q as [Q|Q]; [congruence|]. eapply Q; eauto.
 Qed.
 
 (* ------------------------------------------------------------------------------------------ *)
@@ -1625,7 +1629,7 @@ Proof. intros ops p s. apply open_pc_registered. apply inv_reach. Qed.
 
 Theorem get_returns_open_hist : forall ops h u is6 ip,
   let s := run cf init ops in
-  no_pending_watcher s -> mclosed s = false -> cf_addr_ok cf = true ->
+  (cf_byid cf = true \/ no_pending_watcher s) -> mclosed s = false -> cf_addr_ok cf = true ->
   let s' := next s (OGet h u is6 ip) in
   exists p, hnd s' h = Some (p, false) /\ p_closed (pc s' p) = false /\ mp s' u is6 ip = Some p /\
             p_ufrag (pc s' p) = u /\ p_is6 (pc s' p) = is6 /\ p_ip (pc s' p) = ip /\ p_timer (pc s' p) = false.
@@ -1633,7 +1637,8 @@ Proof. intros ops h u is6 ip s. apply get_returns_open. apply inv_reach. Qed.
 
 Theorem no_spurious_close_hist : forall ops o p,
   let s := run cf init ops in
-  (forall q, q <> p -> p_closed (pc s q) = true -> p_watcher (pc s q) = true ->
+  (cf_byid cf = true \/
+   forall q, q <> p -> p_closed (pc s q) = true -> p_watcher (pc s q) = true ->
              ~ (p_ufrag (pc s q) = p_ufrag (pc s p) /\ p_ip (pc s q) = p_ip (pc s p))) ->
   p_closed (pc s p) = false -> p_closed (pc (next s o) p) = true ->
   match o with
@@ -1653,7 +1658,7 @@ Theorem closed_only_by_hist : forall ops o p,
   | OHClose h => hnd s h = Some (p, false) /\ (p_refs (pc s p) - 1 <= 0)%Z
   | OExpire u f i => mp s u f i = Some p /\ p_timer (pc s p) = true
   | OMuxClose => mclosed s = false
-  | OWatcher q => q <> p /\ p_closed (pc s q) = true /\ p_watcher (pc s q) = true /\
+  | OWatcher q => cf_byid cf = false /\ q <> p /\ p_closed (pc s q) = true /\ p_watcher (pc s q) = true /\
                   p_ufrag (pc s q) = p_ufrag (pc s p) /\ p_ip (pc s q) = p_ip (pc s p)
   | _ => False
   end.
@@ -1668,16 +1673,16 @@ Theorem expiry_hist : forall ops u is6 ip p,
      (forall k, c_att (conn s k) = Some p ->
                 c_srv_closed (conn s' k) = true /\ c_att (conn s' k) = None /\ c_reader (conn s' k) = None) /\
      (forall k, c_reader (conn s k) = Some p -> c_reader (conn s' k) = None)) /\
-  (mclosed s = false -> forall h ops2,
+  (mclosed s = false -> lookup cf s u is6 ip = Some p -> forall h ops2,
      let s1 := next s (OGet h u is6 ip) in
      let s2 := run cf s1 ops2 in
-     p_timer (pc s2 p) = false /\
+     hnd s1 h = Some (p, false) /\ p_timer (pc s2 p) = false /\
      (mp s2 u is6 ip = Some p -> next s2 (OExpire u is6 ip) = s2)).
 Proof.
   intros ops u is6 ip p s Hm. pose proof (inv_reach ops) as I. fold s in I. split.
   - intros Ht. apply expire_closes; auto.
-  - intros Hc h ops2 s1 s2.
-    destruct (claim_disarms s h u is6 ip p Hc Hm) as (_ & _ & T & _).
+  - intros Hc Hl h ops2 s1 s2.
+    destruct (claim_disarms s h u is6 ip p Hc Hl) as (_ & Hh & T & _). split; [exact Hh|].
     destruct (i_mp _ I _ _ _ _ Hm) as (Hlt & _).
     assert (T2 : p_timer (pc s2 p) = false).
     { apply timer_off_forever; auto. pose proof (npc_mono s (OGet h u is6 ip)). unfold s1, next in *. lia. }
